@@ -1,5 +1,13 @@
 From Coq Require Import ZArith.
-From DV Require Import Gc.
+From DV Require Import Gc PackLookup.
 Require Extraction.
 Require Import ExtrOcamlBasic.
-Extraction "model.ml" find_reachable prunable after_gc Z.succ.
+(* is the reader's next step one that touches nothing (the end of an attempt that neither saw a pack disappear nor has
+   the directory still to read)? *)
+Definition silent (r : reader) : bool :=
+  match ctl r with
+  | Scan _ _ [] dis resc => negb (dis || negb resc)
+  | _ => false
+  end.
+Definition finished (r : reader) : bool := match ctl r with Found | Missing => true | _ => false end.
+Extraction "model.ml" find_reachable prunable after_gc Z.succ sys_step start silent finished needs_order.
